@@ -224,3 +224,27 @@ void h_le_r32(void){ uint8_t *b; read_u32(b); }
 void h_le_ri32(void){ uint8_t *b; read_i32(b); }
 void h_le_ri64(void){ uint8_t *b; read_i64(b); }
 void h_le_rf64(void){ uint8_t *b; read_f64(b); }
+
+/* C19.enc.K : 2-safety by self-composition of the REAL isa_encode - two instructions that agree on the opcode and on the
+ * operand fields the table row names (as bit patterns), and are arbitrary in everything else (operand_count, operand_types,
+ * byte_length, unused operand slots, union padding), encode to identical lengths and bytes: the output depends on nothing
+ * but the declared content. */
+void h_det_enc(void)
+{
+    DecodedInstruction *a = malloc(sizeof(*a)), *b = malloc(sizeof(*b));
+    __CPROVER_assume(a && b);
+    __CPROVER_assume(a->opcode == KK && b->opcode == KK);
+    for (int i = 0; i < MAX_OPERANDS; i++)
+        if (i < SPEC_ROW(KK).operand_count)
+            __CPROVER_assume(spec_bits(a, i, SPEC_ROW(KK).operands[i]) == spec_bits(b, i, SPEC_ROW(KK).operands[i]));
+    size_t cap = nondet_size();
+    __CPROVER_assume(cap <= ISA_MAX_INSTRUCTION_SIZE);
+    uint8_t *ba = malloc(ISA_MAX_INSTRUCTION_SIZE), *bb = malloc(ISA_MAX_INSTRUCTION_SIZE);
+    __CPROVER_assume(ba && bb);
+    uint32_t na = isa_encode(a, ba, cap), nb = isa_encode(b, bb, cap);
+    __CPROVER_assert(na == nb, "C19.enc same length");
+    for (uint32_t j = 0; j < ISA_MAX_INSTRUCTION_SIZE; j++)
+        if (j < na) __CPROVER_assert(ba[j] == bb[j], "C19.enc same bytes");
+    VERIF_COVER(na != 0 || !SPEC_DEFINED(KK));
+    VERIF_COVER(na == 0);
+}
